@@ -151,6 +151,12 @@ pub fn menu() -> Vec<Op> {
         f.content = Content::Linked(Box::new(Content::Text(33)));
         fops.push(("source behind a symbolic link".into(), f));
     }
+    {
+        let mut f = base_file();
+        f.dest = "/k/relative".into();
+        f.content = Content::Relative(Box::new(Content::Text(21)));
+        fops.push(("source named relative to the working directory".into(), f));
+    }
     for (n, mt) in [("mtime = source date", 1_600_000_000u32), ("mtime after source date", 1_700_000_000), ("mtime 0", 0)] {
         let mut f = base_file();
         f.dest = format!("/t/{}", mt);
